@@ -351,7 +351,7 @@ MANDATORY = {
         ('group::write_report_with_timestamp', r'ReportWriter.*::write$', None, 'writing the report', (), (r'Option<std::path::PathBuf>',)),
     ],
     'C10': [
-        ('<report::TextReportIterator<R> as fallible_iterator::FallibleIterator>::next', r'::read_paths$', 0, 'reading the announced paths of a group', ('stopped_on_error',), (r'::read_group_header$',)),
+        ('<report::TextReportIterator<R> as fallible_iterator::FallibleIterator>::next', r'::read_paths$', 0, 'reading the announced paths of a group', ('stopped_on_error',), (r'::read_group_header$', r'Option<report::GroupHeader>')),
     ],
     'C11': [
         ('dedupe::log_script::{closure#0}', r'PriorityQueue.*::push$', 0, 'queueing a received group', (), (r'Receiver.*::recv$',)),
